@@ -423,6 +423,8 @@ class Unit:
         meta = dict(key=key, verus_name=vname, file=repo_rel, lines=[it.line, it.end_line], sha256_source=sha(it.text), mode=mode,
                     serves=(c.serves if c else []), rules=[], contract_file=(os.path.relpath(c.file, self.cfg['verif_root']) if c else None))
         self.functions.append(meta)
+        if key in self.downgraded:
+            meta['rules'].append('E9')
         if mode == 'drop':
             self.rule('E1.fn_dropped')
             meta['sha256_emitted'] = None
